@@ -74,7 +74,7 @@ def observe(fmt, out):
 def model_part(rep, tier, rng, bad):
     """the regenerated program, run by the extracted interpreter, against what real conversions show"""
     drv = common.extract_driver()
-    n = 300 if tier == "quick" else 5000
+    n = 300 if tier == "quick" else 25000
     # calibration of the glyph / phrase signatures on single-key blocks (the composition of keys is what is tested)
     cal_jobs = [(meta_text([("Language", l)]) + PROBE, "html", BASE | E["snippet"], 0) for l in ["de", "es", "fr", "he", "nl", "sv", "en"]]
     cal_jobs += [(meta_text([("Quotes Language", q)]) + PROBE, "html", BASE | E["snippet"], 0) for q in ["dutch", "french", "german", "germanguillemets", "spanish", "swedish", "english"]]
@@ -138,7 +138,7 @@ def bodies(rng, n):
 
 
 def wrapper_part(rep, tier, rng, bad):
-    n = 40 if tier == "quick" else 400
+    n = 40 if tier == "quick" else 1500
     bs = bodies(rng, n)
     exts = [BASE, BASE & ~E["smart"], BASE | E["random_foot"] * 0 | E["nolabels"]]
     jobs, idx = [], []
